@@ -18,6 +18,7 @@ import (
 	"time"
 
 	"github.com/uber/kraken/core"
+	"github.com/uber/kraken/gen/go/proto/p2p"
 	"github.com/uber/kraken/lib/torrent/networkevent"
 	"github.com/uber/kraken/lib/torrent/scheduler"
 	"github.com/uber/kraken/lib/torrent/scheduler/connstate"
@@ -25,6 +26,7 @@ import (
 	"kverif/cluster"
 	"kverif/kit"
 	simrt "kverif/sim"
+	"kverif/wire"
 )
 
 type dlRes struct {
@@ -45,6 +47,7 @@ func body(s *simrt.Sim, tier string) {
 	p := cluster.Params{PieceLength: int64(1024 << tp.Draw(3)), Sched: sc, TorrentLog: true,
 		AnnounceInterval: time.Duration(1+tp.Draw(2)) * time.Second, PeerHandoutLimit: 3 + tp.Draw(3)}
 	c := cluster.New(s, p)
+	wl := wire.Attach(s, c.NW) // piece payloads as the sender writes them
 	c.StartOrigins(1)
 	c.StartTracker()
 	nPieces := 2 + tp.Draw(14)
@@ -125,10 +128,14 @@ func body(s *simrt.Sim, tier string) {
 	simrt.Sleep(2*(sc.SeederTTI+sc.LeecherTTI) + 4*sc.PreemptionInterval + 20*time.Second)
 
 	// --- oracle
-	lat := c.NW.MaxLatency
-	// the bandwidth limiter may delay a payload slightly between the seeder's
-	// read and the receiver's event; the statement's granularity is seconds
+	// A piece counts as served when its payload goes onto the wire at the
+	// serving end: the read time the scheduler records for it is never earlier
+	// (the piece reader is closed after the write). The receiver's own event is
+	// not used for this — link latency and stalled connections delay it by an
+	// unbounded amount (see DESIGN.md, false alarms). The torrent log has
+	// millisecond resolution.
 	const slack = time.Second
+	const logRes = 2 * time.Millisecond
 	for ai, a := range agents {
 		recs := a.ReadTorrentLog(s)
 		// pieces this agent received (own events) and pieces others received from it
@@ -138,15 +145,13 @@ func body(s *simrt.Sim, tier string) {
 				received = append(received, ev.Time.Sub(s.StartTime()))
 			}
 		}
-		for _, o := range agents {
-			if o == a {
-				continue
+		for _, f := range wl.Frames {
+			if f.From == a.Node.Name && f.Msg != nil && f.Msg.Type == p2p.Message_PIECE_PAYLOAD && f.InfoHash == ih {
+				servedSeenAt = append(servedSeenAt, f.At)
 			}
-			for _, ev := range o.Events.All {
-				if ev.Name == networkevent.ReceivePiece && ev.Torrent == ih && ev.Peer == a.PCtx.PeerID.String() {
-					servedSeenAt = append(servedSeenAt, ev.Time.Sub(s.StartTime()))
-				}
-			}
+		}
+		if len(servedSeenAt) > 0 {
+			s.Probe("payload_frames_seen_on_wire")
 		}
 		for _, r := range recs {
 			if r.InfoHash != ih {
@@ -156,9 +161,9 @@ func body(s *simrt.Sim, tier string) {
 			case "Seed timeout":
 				s.Probe("seed_timeout")
 				for _, at := range servedSeenAt {
-					// the piece was served no earlier than at-lat; it must keep the torrent for a full idle limit
-					if at <= r.At && r.At < at-lat-slack+sc.SeederTTI {
-						s.Fail("seeder_dropped_while_serving", "%s dropped its completed torrent as idle at %v although a peer received a piece from it at %v (seeder idle limit %v)", a.Name, r.At, at, sc.SeederTTI)
+					// the piece was served no earlier than at; it must keep the torrent for a full idle limit
+					if at <= r.At && r.At+logRes < at+sc.SeederTTI {
+						s.Fail("seeder_dropped_while_serving", "%s dropped its completed torrent as idle at %v although it put a piece on the wire at %v (seeder idle limit %v)", a.Name, r.At, at, sc.SeederTTI)
 					}
 				}
 				if got, err := a.ReadCache(d); err != nil || !bytes.Equal(got, blob) {
@@ -210,6 +215,6 @@ func TestC18(t *testing.T) {
 			"agentstorage / originstorage, stores, tracker, origin blobserver metainfo endpoints"},
 		Stub: []string{"TCP (simnet) and HTTP (simhttp) transports", "write-back manager (no-op)", "health-check filter (identity)"},
 		Rule: "one run = a seeder that completed a blob plus 1-3 leechers arriving with tape-drawn gaps around the seeder idle limit, optional connection stalls and loss of all sources for longer than the leecher idle limit; idle limits 6-30 s, preemption 1-4 s; non-trivial = >=1 contested scheduling decision or fired fault",
-		Assumptions: []string{"a piece counts as served no later than the instant the receiving peer logged it", "drops later than the limit are accepted (the statement bounds drops from below only)"},
+		Assumptions: []string{"a piece counts as served at the instant its payload frame is written at the serving end (observed on the simulated wire)", "drops later than the limit are accepted (the statement bounds drops from below only)"},
 	})
 }
